@@ -749,7 +749,9 @@ def _run_clone(case, out):
     try:
         orig = MersenneTwister(case["seed"])
         pre = [draw(orig, k) for k in case["pre"]]
-        clone = copy.deepcopy(orig)
+        import pickle
+        by_pickle = case["seed"] % 2 == 1
+        clone = pickle.loads(pickle.dumps(orig)) if by_pickle else copy.deepcopy(orig)
         # references: two more streams brought to the same point, each then sees only its own operations
         refs = []
         for _ in range(2):
@@ -768,6 +770,23 @@ def _run_clone(case, out):
                 return
         if clone.seed() != orig.seed() or clone.original_seed() != orig.original_seed():
             out.fail("independence:deep-copy-shares-state", "seed accessors differ")
+        # a copy (shallow, deep or pickled) of a stream that was given another seed has that seed: it reports it and
+        # reset() replays it
+        for how, copier in (("copy", copy.copy), ("deepcopy", copy.deepcopy),
+                            ("pickle", lambda x: pickle.loads(pickle.dumps(x)))):
+            src = MersenneTwister(case["seed"])
+            other_seed = case["seed"] + 12345
+            src.set_seed(other_seed)
+            src.next_float()
+            c = copier(src)
+            seeds = [c.seed(), c.original_seed()]
+            c.reset()
+            first = c.next_float().hex()
+            want = MersenneTwister(other_seed).next_float().hex()
+            if seeds != [other_seed, case["seed"]] or first != want:
+                out.fail("reset:copied-stream:" + how, {"seeds": seeds, "want_seeds": [other_seed, case["seed"]],
+                                                        "first_after_reset": first, "want": want})
+                return
     except Exception as e:
         out.fail("raises:clone:" + type(e).__name__, repr(e))
         return
